@@ -338,7 +338,17 @@ impl<'t, 'd, 'e> ValueGen<'t, 'd, 'e> {
 					MType::Union(bs) => bs,
 					_ => unreachable!(),
 				};
-				let i = if tight { 0 } else { t.below(bs.len()) };
+				let i = if tight {
+					0
+				} else {
+					// (wide unions: every other draw lands on a branch whose discriminant needs a two-byte varint)
+					let j = t.below(bs.len());
+					if bs.len() > 64 && j % 2 == 0 {
+						64 + (j / 2) % (bs.len() - 64)
+					} else {
+						j
+					}
+				};
 				MValue::Union(i, Box::new(self.gen_at(&bs[i], depth + 1)))
 			}
 			Kind::Record => {
